@@ -136,12 +136,14 @@ def _entries():
     @reg('shot_noise')
     def _(W, lt):
         img = W.reals('img', (1, 2), nonneg=True, hi=100)
-        return {'frame': img}, lambda: lt.detector.shot_noise(img, seed=W.int('seed', 0, 99))
+        seed = W.int('seed', 0, 99)
+        return {'frame': img}, lambda: lt.detector.shot_noise(img, seed=seed)
 
     @reg('read_noise')
     def _(W, lt):
         img = W.reals('img', (1, 2))
-        return {'frame': img}, lambda: lt.detector.read_noise(img, W.real('el', pos=True), seed=W.int('seed', 0, 99))
+        seed, el = W.int('seed', 0, 99), W.real('el', pos=True)
+        return {'frame': img}, lambda: lt.detector.read_noise(img, el, seed=seed)
 
     @reg('detector.pixel')
     def _(W, lt):
@@ -270,8 +272,14 @@ def run_mut(W, cfg):
     if not cfg['entry'].startswith(('Wavefront.insert', 'dft2(out')):
         with warnings.catch_warnings():
             warnings.simplefilter('ignore')
-            thunk()
+            r2 = thunk()
         _same(W, cfg['entry'] + ' (2nd call)', owned, snap)
+        if cfg['entry'] in ('shot_noise', 'read_noise'):
+            with warnings.catch_warnings():
+                warnings.simplefilter('ignore')
+                r3 = thunk()
+            W.ob(cfg['entry'] + ': a seeded call repeated gives the same draw (no hidden generator state)', r3, r2)
+            W.ob_true(cfg['entry'] + ': the global generator is not used', len(W.rng_events()) == 0)
 
 
 # ------------------------------------------------------------------ documented in-place APIs change only their target
@@ -336,7 +344,7 @@ def run_inplace(W, cfg):
 
 # ------------------------------------------------------------------ histories
 def cfg_hist(tier, seed):
-    out = [{'case': c} for c in ('plane-reuse', 'interleaved-dft2', 'fit-tilt-twice', 'fit-tilt-twice-segmented', 'spectrum-reuse', 'wavefront-fanout', 'offset-dft2-twice')]
+    out = [{'case': c} for c in ('plane-reuse', 'interleaved-dft2', 'fit-tilt-twice', 'fit-tilt-twice-segmented', 'spectrum-reuse', 'wavefront-fanout', 'offset-dft2-twice', 'scratch-reuse')]
     return out, len(out), True
 
 
@@ -369,6 +377,21 @@ def run_hist(W, cfg):
         W.ob('second product carries its own tilt only', [sb[0], sb[1]], [z * (t0[0] + tB[0]) / du, -z * (t0[1] + tB[1]) / du])
         sa = wa.data[0].shift(z=z, wavelength=lam, pixelscale=(du, du), oversample=1)
         W.ob('first product unaffected by the second', [sa[0], sa[1]], [z * (t0[0] + tA[0]) / du, -z * (t0[1] + tA[1]) / du])
+    elif case == 'scratch-reuse':
+        # a caller-owned scratch buffer reused for a second propagation (non-square FFT grid, wider than tall): the answer must not
+        # depend on what the first call left in it
+        a = W.reals('a', (2, 3), nz=True)
+        lam, fl, dx = W.real('lam', pos=True), W.real('f', pos=True), W.real('dx', pos=True)
+        w = lt.Wavefront(lam) * lt.Pupil(amplitude=a, mask=rnp.ones((2, 3), dtype=int), focal_length=fl, pixelscale=dx)
+        du = (lam * fl / (2 * dx), lam * fl / (4 * dx))            # FFT grid 2 x 4
+        ref = lt.propagate_fft(w, pixelscale=du, oversample=1).field
+        scr = W.complexes('scr', (2, 4))
+        first = lt.propagate_fft(w, pixelscale=du, oversample=1, scratch=scr).field
+        w2 = lt.Wavefront(lam) * lt.Pupil(amplitude=a[:, :1], mask=rnp.ones((2, 1), dtype=int), focal_length=fl, pixelscale=dx)
+        ref2 = lt.propagate_fft(w2, pixelscale=du, oversample=1).field
+        second = lt.propagate_fft(w2, pixelscale=du, oversample=1, scratch=scr).field
+        W.ob('first use of the scratch buffer', first, ref)
+        W.ob('second use of the same buffer for a narrower pupil', second, ref2)
     elif case == 'offset-dft2-twice':
         f1 = W.complexes('f', (2, 3))
         a1, k = W.real('a1'), W.int('k', -3, 3)
